@@ -811,9 +811,7 @@ def take_orders(a, orders):
 
 REL_TAGS = _collections.Counter()       # relation tags used in this run (evidence)
 # Relations the UNCHANGED library mishandles or rejects (established with IIDX_RELS_ALL=1; notes, RELATION FINDINGS): not generated
-RELS_OFF = {
-    "self-operand:diff",      # idx.difference_update(idx): RuntimeError "dictionary changed size during iteration", receiver half-emptied (RELATION FINDINGS)
-}
+RELS_OFF = set()          # (idx.difference_update(idx) used to be here: RuntimeError on the tree before its repair F30 = 97f4108)
 
 
 def rel_ok(kind):
@@ -1968,10 +1966,9 @@ def run_check(ctx, prop):
                 "ndarray as a sliced() order, list / int8 masks.  NOT generated because the unchanged library then produces an index its own validator "
                 "rejects (candidate findings, notes FORM FINDINGS): NumPy scalars as common / shift_common(v) / new_common / filtered new_length / "
                 "reindexed / from_array mapping values.  RELATIONS (coverage.relation_tags): operands re-used by later steps and validated after "
-                "the call, the receiver as its own operand (append, column_stack, union/intersection_update, update with its own arrays), the same "
+                "the call, the receiver as its own operand (append, column_stack, union/intersection/difference_update, update with its own arrays), the same "
                 "call twice with the same argument objects, argument objects compared before/after, the source of a copy kept under observation, one "
-                "counts/mapping dict shared by two from_array calls, swap/chain mappings, == with an equal index in another insertion order; NOT "
-                "generated: idx.difference_update(idx) (raises RuntimeError on the unchanged tree, notes RELATION FINDINGS)" % max_steps)
+                "counts/mapping dict shared by two from_array calls, swap/chain mappings, == with an equal index in another insertion order" % max_steps)
     ctx.trusted = list(core.STD_TRUSTED) + [
         "harness/iindex_hist.py: abstraction of a real iindex (dict order, int(row ids), common, shape) into a Model.v record literal; "
         "items of set-update operands whose value is None are dropped by the abstraction",
